@@ -22,6 +22,9 @@ TRANSPARENT = ('iter', 'iter_mut', 'into_iter', 'enumerate', 'deref', 'deref_mut
                'cloned', 'copied', 'zip', 'by_ref')
 
 
+_PROG = None
+
+
 def root_sig(t, depth=0):
     """stable, line-free description of where a value comes from (private helper names and closures are dropped)"""
     if depth > 40:
@@ -32,6 +35,10 @@ def root_sig(t, depth=0):
         return 'self' if t[2] == 'self' else 'a%d' % t[1]
     if k == 'field':
         if t[2].isdigit():
+            return root_sig(t[1], depth)
+        # a field of a private record that did not exist on the pinned tree (a tuple given names) is transparent like a tuple position
+        badts = getattr(_PROG, 'baseline_adts', None) if _PROG is not None else None
+        if badts is not None and len(t) > 3 and isinstance(t[3], str) and t[3].startswith('des') and strip_generics(t[3]) not in badts:
             return root_sig(t[1], depth)
         return '%s.%s' % (root_sig(t[1], depth + 1), t[2])
     if k == 'index':
@@ -227,6 +234,22 @@ def auto_safe(f, kind, site):
                         enum = [x for x in walk(it) if x[0] == 'call' and x[1].endswith('::enumerate')]
                         if enum and root_sig(enum[0][2][0]) == recv:
                             return 'tail slice starting one past an index that enumerates the same sequence (start <= len)'
+    if kind.startswith('overflow:Add') and t['k'] == 'assert':
+        c = peel(f.expr_operand(t['c'], b, 'T'))
+        if c[0] == 'field' and c[1][0] == 'bin' and c[1][1].startswith('Add') and ('int', 1) in (peel(c[1][2]), peel(c[1][3])):
+            x = c[1][2] if peel(c[1][3]) == ('int', 1) else c[1][3]
+            cx = canon(strip_refs(peel(x)))
+            for _, a in f.guard_atoms(b):
+                if a[0] == 'cmp' and ((a[1] == 'lt' and a[2] == cx) or (a[1] == 'gt' and a[3] == cx)):
+                    return 'x + 1 where x < y was tested on the way here (x < y <= MAX)'
+    if kind in ('index', 'index_mut') and hasattr(site, 'args') and len(site.args) == 2:
+        # `xs[1..]` of a slice that was found non-empty (1 <= len): a valid, possibly empty, tail
+        rng1 = peel(f.expr_operand(site.args[1], b, 'T'))
+        if rng1[0] == 'agg' and 'RangeFrom' in str(rng1[1]) and rng1[2] and peel(rng1[2][0]) == ('int', 1):
+            subj = canon(strip_refs(f.expr_operand(site.args[0], b, 'T')))
+            for _, a in f.guard_atoms(b):
+                if a[0] == 'bool' and a[2] is False and a[1][0] == 'call' and a[1][1].endswith('::is_empty') and a[1][2] and a[1][2][0] == subj:
+                    return 'tail slice [1..] of a slice that was tested non-empty on the way here'
     if kind in ('index', 'index_mut', 'swap') and hasattr(site, 'args') and len(site.args) >= 2:
         # `for i in lo..xs.len() { .. xs[i] .. xs[i..] .. xs.swap(i, i + <position within xs[i..]>) }` with xs not resized in the loop
         recv_t = f.expr_operand(site.args[0], b, 'T')
@@ -365,8 +388,6 @@ def _inherit_required_last(f):
     return all(r.b not in g.reach_from(ext[0].b) for r in rem) and not any(set(g.loops_containing(r.b)) & set(g.loops_containing(ext[0].b)) for r in rem)
 
 
-_PROG = None
-
 
 def r1_panic_inventory(ctx):
     global _PROG
@@ -385,6 +406,15 @@ def r1_panic_inventory(ctx):
             ctx.ok('constant index into a fixed-size array, in range (%s)' % key.split('|')[-1], where)
             continue
         ent = TABLE.get(key)
+        if ent is None and '|' in key:
+            # the audited function was merged into this one (a pinned wrapper + `_inner` pair folded together): its entries apply here
+            fk0, rest = key.split('|', 1)
+            for tk in TABLE:
+                tf, trest = tk.split('|', 1)
+                if trest == rest and tf != fk0 and (ND + tf) not in P.fns and f in P.scope_of(ND + tf):
+                    ent = TABLE[tk]
+                    key = tk
+                    break
         if ent is None:
             why = auto_safe(f, kind, site)
             if why:
